@@ -1,0 +1,21 @@
+//go:build verif
+// +build verif
+
+package p2p
+
+import "net"
+
+// Verification hooks (build tag verif): thin exports, no logic of their own.
+
+// VerifBase lets a test double outside the package satisfy P2PInterface.
+type VerifBase struct{ P2PInterface }
+
+func (VerifBase) numOfClient() (int, int) { return 0, 0 }
+
+const (
+	VerifMsgSizeLimit = msgSizeLimit
+	VerifHeaderSize   = headerSize
+)
+
+func VerifReadFrom(c net.Conn) ([]byte, error) { return readFrom(c) }
+func VerifWriteTo(b []byte, c net.Conn) error  { return writeTo(b, c) }
